@@ -150,6 +150,17 @@ def _check_keras_class(prog, res, c):
     else:
       res.ok('S2', '%s|%s' % (q, p), gc.loc(entries[0][2]),
              'parameter %r serialised' % p)
+  # ---- S9: no argument of the rebuild call is a lossy `x or default`
+  if fm is not None:
+    for p, v in sorted(fm.explicit.items()):
+      lossy = [b for b in ast.walk(v) if isinstance(b, ast.BoolOp)
+               and isinstance(b.op, ast.Or)]
+      res.check(not lossy, 'S9', '%s|arg:%s' % (q, p), fc.loc(fm.ctor_call),
+                'argument %s is taken from the config without a lossy '
+                'default' % p,
+                'from_config passes %s=%s: `or` replaces every falsy stored '
+                'value (False, 0, []) by the default, so the rebuilt object '
+                'differs from the saved one' % (p, norm_text(v)[:50]))
   # ---- S3 / S4 per key
   for key, entries in sorted(cm.keys.items()):
     for v, g, node in entries:
